@@ -11,6 +11,7 @@ import (
 	"sync/atomic"
 	"time"
 
+	"github.com/pingcap/errors"
 	"github.com/pingcap/failpoint"
 	"github.com/pingcap/kvproto/pkg/kvrpcpb"
 	tikverr "github.com/tikv/client-go/v2/error"
@@ -19,6 +20,7 @@ import (
 	"github.com/tikv/client-go/v2/kv"
 	"github.com/tikv/client-go/v2/tikv"
 	"github.com/tikv/client-go/v2/tikvrpc"
+	"github.com/tikv/client-go/v2/txnkv/rangetask"
 	"github.com/tikv/client-go/v2/txnkv/transaction"
 	"github.com/tikv/client-go/v2/txnkv/txnlock"
 	"github.com/tikv/client-go/v2/util"
@@ -63,6 +65,7 @@ type TxnHist struct {
 	// InsertUncertain: a LockKeys call failed while the key carried the flag; whether the client
 	// withdrew the flag depends on where the call failed.
 	InsertUncertain map[string]bool
+	UsedAggressive  bool // the transaction used aggressive (fair) locking stages
 	Done            bool
 }
 
@@ -248,6 +251,7 @@ func (w *World) runTxn(p *TxnProg, h *TxnHist) {
 		buf map[string]*string
 	}
 	var stages []stageRec
+	var aggCur map[string]uint64
 	var cp *unionstore.MemDBCheckpoint
 	var cpBuf map[string]*string
 	for _, op := range p.Ops {
@@ -352,6 +356,32 @@ func (w *World) runTxn(p *TxnProg, h *TxnHist) {
 			}
 		case "sleep":
 			time.Sleep(time.Duration(op.SleepMs) * time.Millisecond)
+		case "aggstart":
+			if p.Pessimistic && !txn.IsInAggressiveLockingMode() {
+				txn.StartAggressiveLocking()
+				h.UsedAggressive = true
+				aggCur = map[string]uint64{}
+			}
+		case "aggretry":
+			if txn.IsInAggressiveLockingMode() {
+				txn.RetryAggressiveLocking(ctx)
+				aggCur = map[string]uint64{}
+			}
+		case "aggcancel":
+			if txn.IsInAggressiveLockingMode() {
+				txn.CancelAggressiveLocking(ctx)
+				aggCur = nil
+			}
+		case "aggdone":
+			if txn.IsInAggressiveLockingMode() {
+				txn.DoneAggressiveLocking(ctx)
+				for k, ts := range aggCur {
+					if _, ok := h.Locked[k]; !ok {
+						h.Locked[k] = ts
+					}
+				}
+				aggCur = nil
+			}
 		case "stage":
 			stages = append(stages, stageRec{h: txn.GetMemBuffer().Staging(), buf: copyBuf(h.Buf)})
 		case "release":
@@ -409,6 +439,10 @@ func (w *World) runTxn(p *TxnProg, h *TxnHist) {
 				}
 			} else {
 				for _, k := range op.Keys {
+					if aggCur != nil {
+						aggCur[k] = forTS // becomes a lock of the transaction only when the stage is done
+						continue
+					}
 					if _, ok := h.Locked[k]; !ok {
 						h.Locked[k] = forTS
 						if h.Inserted[k] && h.Buf[k] != nil {
@@ -437,6 +471,9 @@ func (w *World) runTxn(p *TxnProg, h *TxnHist) {
 		}
 		r.Ret = s.Stamp()
 		h.Ops = append(h.Ops, r)
+	}
+	if txn.IsInAggressiveLockingMode() {
+		txn.CancelAggressiveLocking(ctx)
 	}
 	w.Net.SetMark(p.Client, fmt.Sprintf("end%d", p.ID))
 	h.EndInv = s.Stamp()
@@ -785,4 +822,102 @@ func (w *World) runReads(r *rand.Rand, cl int, phase string, n int, plan *ReadPl
 			}
 		}
 	}
+}
+
+// GCReport is what the C14 phase observed.
+type GCReport struct {
+	Ranges      [][2]string // sub-ranges handed to the recording handler, in the order received
+	RangeErr    string
+	FailedAt    int
+	SafePoint   uint64
+	GCErr       string
+	LocksAfter  []string // locks with start ts <= safe point found in the store right after a successful GC
+	BelowErr    string   // error class of a read below the safe point ("" = served)
+	AtErr       string   // error of a read at the safe point
+	DelErr      string
+	DelDone     bool
+	TruthBefore simkit.Truth // before the delete-range task
+	TruthAfter  simkit.Truth
+}
+
+// runGC executes the C14 phase on the observer client.
+func (w *World) runGC(plan *GCPlan) *GCReport {
+	rep := &GCReport{FailedAt: -1}
+	st := w.Stores[len(w.Stores)-1]
+	ctx := context.Background()
+	// 1. range task coverage with a recording handler
+	var mu sync.Mutex
+	calls := 0
+	handler := func(ctx context.Context, r kv.KeyRange) (rangetask.TaskStat, error) {
+		mu.Lock()
+		defer mu.Unlock()
+		n := calls
+		calls++
+		rep.Ranges = append(rep.Ranges, [2]string{string(r.StartKey), string(r.EndKey)})
+		if n == plan.FailAt {
+			rep.FailedAt = n
+			return rangetask.TaskStat{FailedRegions: 1}, fmt.Errorf("sim: injected handler failure")
+		}
+		return rangetask.TaskStat{CompletedRegions: 1}, nil
+	}
+	runner := rangetask.NewRangeTaskRunner("sim-cover", st, plan.Concurrency, handler)
+	runner.SetRegionsPerTask(plan.RegionsPer)
+	if err := runner.RunOnRange(ctx, []byte(plan.RangeLo), []byte(plan.RangeHi)); err != nil {
+		rep.RangeErr = err.Error()
+	}
+	// 2. GC lock resolution up to a fresh safe point
+	sp, err := st.GetOracle().GetTimestamp(ctx, &oracleOpt)
+	if err != nil {
+		rep.GCErr = "tso: " + err.Error()
+		return rep
+	}
+	rep.SafePoint = sp
+	if plan.ScanLimit == 0 {
+		newSP, err := st.GC(ctx, sp, tikv.WithConcurrency(plan.Concurrency))
+		if err != nil {
+			rep.GCErr = classify(err)
+		} else {
+			rep.SafePoint = newSP
+		}
+	} else {
+		_, err := tikv.ResolveLocksForRange(ctx, tikv.NewRegionLockResolver("sim-gc", st), sp, nil, nil, tikv.NewGcResolveLockMaxBackoffer, uint32(plan.ScanLimit))
+		if err != nil {
+			rep.GCErr = classify(err)
+		}
+	}
+	if rep.GCErr == "" {
+		for _, l := range w.dumper.VerifDumpLocks() {
+			if l.LockVersion <= rep.SafePoint {
+				rep.LocksAfter = append(rep.LocksAfter, fmt.Sprintf("{key=%q start=%d primary=%q type=%v}", l.Key, l.LockVersion, l.PrimaryLock, l.LockType))
+			}
+		}
+		// 3. snapshot reads below / at the cached transaction safe point
+		st.UpdateTxnSafePointCache(rep.SafePoint, time.Now())
+		if rep.SafePoint > 1 {
+			_, err := st.GetSnapshot(rep.SafePoint-1).Get(ctx, []byte("a"))
+			if err != nil && !tikverr.IsErrNotFound(err) {
+				rep.BelowErr = classify(err)
+				if _, ok := errors.Cause(err).(*tikverr.ErrTxnAbortedByGC); ok {
+					rep.BelowErr = "aborted-by-gc"
+				}
+			}
+			_, err = st.GetSnapshot(rep.SafePoint).Get(ctx, []byte("a"))
+			if err != nil && !tikverr.IsErrNotFound(err) {
+				rep.AtErr = classify(err)
+			}
+		}
+	}
+	return rep
+}
+
+// runDeleteRange executes the delete-range task after everything else was audited.
+func (w *World) runDeleteRange(plan *GCPlan, rep *GCReport) {
+	st := w.Stores[len(w.Stores)-1]
+	rep.TruthBefore = simkit.DumpTruth(w.dumper, w.allKeys)
+	task := rangetask.NewDeleteRangeTask(st, []byte(plan.DelLo), []byte(plan.DelHi), plan.Concurrency)
+	if err := task.Execute(context.Background()); err != nil {
+		rep.DelErr = classify(err)
+	}
+	rep.DelDone = true
+	rep.TruthAfter = simkit.DumpTruth(w.dumper, w.allKeys)
 }
